@@ -1505,7 +1505,8 @@ class Distributions(object):
         # radii
         r = np.arange(self.rmax + 1)
 
-        return self.Results(r, I, self.order, self.odd, self.valid)
+        # (own copy of the flags: the results belong to the caller)
+        return self.Results(r, I, self.order, self.odd, self.valid.copy())
 
     def __call__(self, IM):
         return self.image(IM)
